@@ -33,6 +33,8 @@ def jobs(tier):
     for sh in ("nested+late", "cfglist+late", "nested+env", "nested+off"):       # schema grown after first use / empty bound variables
         for leaf in ["int09", "str-norm", "list-int", "dict-typed", "bool"]:
             out.append({"name": "%s/%s" % (sh, leaf), "shape": sh, "leaf": leaf, "depth": b["depth"], "tier": tier})
+    for leaf in ["int09", "str-norm", "list-int", "dict-typed", "bool", "net"]:
+        out.append({"name": "late-decl/%s" % leaf, "kind": "late-decl", "leaf": leaf})
     if tier != "thorough":
         for leaf in W.option_leaves():
             for sh in ("flat", "cfglist"):
@@ -197,8 +199,72 @@ def _shape(a):
     return type(a).__name__
 
 
+def _late_declaration(job, ctx):
+    """a dynamic configuration already holds an ad-hoc value under a key (at the root / in a dynamic sub-configuration); the
+    schema then declares that key as a constrained field; every later write to the key on the *old* configuration, by any
+    route, is held to the declared field: rejected, or stored in normal form"""
+    import cincoconfig as cc
+    leaf = job["leaf"]
+    lspec, valid, invalid = W.catalogue()[leaf]
+    fs = {"k": lspec["k"], "o": {a: b for a, b in lspec.get("o", {}).items() if a not in ("default", "default_callable", "required")}}
+    for extra in ("item", "key", "val"):
+        if extra in lspec:
+            fs[extra] = lspec[extra]
+    only = job.get("only")
+    for where in ("root", "dyn"):
+        for vi, vspec in enumerate(list(valid) + list(invalid)):
+            for route in ("attr", "item", "load_tree", "loads"):
+                ident = [where, vi, route]
+                if only is not None and only != ident:
+                    continue
+                if route in ("load_tree", "loads") and not W._jsonlike(vspec):
+                    continue
+                s = cc.Schema(dynamic=True)
+                s.dyn = cc.Schema(dynamic=True)
+                s.w = cc.IntField(default=1)
+                cfg = s()
+                holder = cfg if where == "root" else cfg.dyn
+                holder.adhoc = None                    # the ad-hoc key exists before the schema knows it
+                (s if where == "root" else s.dyn).adhoc = W.Built({"fields": []})._leaf(dict(lspec, o=dict(fs["o"])))
+                value = V.dec(vspec)
+                path = "adhoc" if where == "root" else "dyn.adhoc"
+                ref = R.ref_validate(fs, V.dec(vspec))
+                ctx.transitions += 1
+                try:
+                    if route == "attr":
+                        setattr(holder, "adhoc", value)
+                    elif route == "item":
+                        cfg[path] = value
+                    elif route == "load_tree":
+                        cfg.load_tree(W.tree_for(path, vspec) if False else ({"adhoc": value} if where == "root" else {"dyn": {"adhoc": value}}))
+                    else:
+                        import json as _json
+                        cfg.loads(_json.dumps({"adhoc": value} if where == "root" else {"dyn": {"adhoc": value}}), "json")
+                    raised = None
+                except Exception as exc:  # noqa
+                    raised = exc
+                got = getattr((cfg if where == "root" else cfg.dyn), "adhoc", None)
+                ctx.case(("late-decl", leaf, where, vi, route), "late-decl:%s:%s" % (route, "raised" if raised else "stored"), True)
+                case = {"kind": "late-decl", "jobparams_full": {k: v for k, v in job.items() if k not in ("single", "only")}, "only": ident, "job": job["name"]}
+                if ref[0] == "rej" and got is not None and not isinstance(got, type(None)):
+                    ok_stored = R.ref_validate(fs, got)[0] == "ok" and R.matches(got, R.ref_validate(fs, got)[1])
+                    if not ok_stored:
+                        ctx.violation("C01|late-decl|%s|%s|invalid-stored" % (leaf, route), "the key %s was declared as a %s field after the configuration held an ad-hoc value; "
+                                      "%s write of %s %s and the configuration now holds %s, which violates the field (%s)"
+                                      % (path, lspec["k"], route, V.show(value, 40), "raised %r" % (raised,) if raised else "was accepted", V.show(got, 40), ref[1]), case)
+                elif ref[0] == "ok" and raised is None and not R.matches(got, ref[1]):
+                    ctx.violation("C01|late-decl|%s|%s|not-normalised" % (leaf, route), "late-declared key %s: %s write of %s reads back as %s, expected the normal form %s"
+                                  % (path, route, V.show(value, 40), V.show(got, 40), V.show(ref[1], 40)), case)
+    ctx.sample({"late_declaration": leaf})
+
+
 def run_job(job, ctx):
     single = job.get("single")
+    if single and single.get("kind") == "late-decl":
+        j = dict(single["jobparams_full"]); j["only"] = single["only"]
+        return _late_declaration(j, ctx)
+    if job.get("kind") == "late-decl":
+        return _late_declaration(job, ctx)
     if single:
         m = Monitor(single["shape"], single["leaf"], single.get("tier", "quick"))
         hist = single["hist"]
